@@ -35,10 +35,12 @@ fn bases<M: Mer>(m: &M) -> Vec<u8> {
     (0..m.len()).map(|i| m.get(i)).collect()
 }
 
-fn rc_of<K: Raw, V: Vmer>(v: &V) -> String {
+fn rc_of<K: Raw, V: Vmer + PartialEq>(v: &V) -> String {
     let r = v.rc();
     let rr = r.rc();
-    format!("rc={} rcrc={} kmers={}", show_digits(&bases(&r)), show_digits(&bases(&rr)), show_ks(&r.iter_kmers::<K>().collect::<Vec<K>>()))
+    // as values: rc is an involution (`rr == v`), and `v == rc(v)` exactly when the sequence is its own reverse complement
+    format!("rc={} rcrc={} kmers={} inv={} pal={}", show_digits(&bases(&r)), show_digits(&bases(&rr)), show_ks(&r.iter_kmers::<K>().collect::<Vec<K>>()),
+        (rr == *v) as u8 + 2 * (*v == rr) as u8, (*v == r) as u8 + 2 * (r == *v) as u8)
 }
 
 fn lmer_req<K: Raw, A: Array<Item = u64> + Copy + Eq + Ord + Hash>(seq: &[u8], req: &str, rest: &[&str]) -> String {
@@ -60,7 +62,8 @@ fn run<K: Raw>(req: &str, cont: &str, seq: &[u8], rest: &[&str]) -> String {
             if req == "rc" {
                 let r = s.rc();
                 let rr = r.rc();
-                format!("rc={} rcrc={} kmers={}", show_digits(&bases(&r)), show_digits(&bases(&rr)), show_ks(&r.iter_kmers::<K>().collect::<Vec<K>>()))
+                format!("rc={} rcrc={} kmers={} inv={} pal={}", show_digits(&bases(&r)), show_digits(&bases(&rr)), show_ks(&r.iter_kmers::<K>().collect::<Vec<K>>()),
+                    (rr == s) as u8 + 2 * (s == rr) as u8, (s == r) as u8 + 2 * (r == s) as u8)
             } else { on_vmer::<K, _>(&s, req, rest) }
         }
         "lmer" => match f[1] {
